@@ -6,6 +6,7 @@ package rulespec
 
 import (
 	"fmt"
+	"reflect"
 
 	cb "github.com/alibaba/sentinel-golang/core/circuitbreaker"
 	"github.com/alibaba/sentinel-golang/core/flow"
@@ -39,7 +40,14 @@ type RS struct {
 	// Tw perturbs one field that does not affect validity or probe decisions (queueing time, burst,
 	// retry timeout ...): a reload that changes only that field must still replace the rule.
 	Tw int `json:"tw,omitempty"`
+	// Hid perturbs one further field (a different one per value, see hidden*) WITHOUT showing in the rule id: two
+	// loads can then carry "the same rule" (same id) with one field edited, which is how rules are edited in
+	// practice and what a hand-written equality that forgets a field gets wrong. Only applied to valid variants.
+	Hid int `json:"hid,omitempty"`
 }
+
+// NumHidden is the number of hidden perturbations per module (0 = none).
+var NumHidden = []int{5, 2, 4, 4, 3, 4}
 
 // ID encodes the rule's content class (module, resource, variant) and its table index. Rule
 // managers reuse the controller (and the rule object) of an earlier load for a rule that is
@@ -109,6 +117,18 @@ func BuildFlow(r RS) *flow.Rule {
 		x.TokenCalculateStrategy = flow.MemoryAdaptive
 		x.LowMemUsageThreshold, x.HighMemUsageThreshold, x.MemLowWaterMarkBytes, x.MemHighWaterMarkBytes = 2, 1, 4096, 2048
 	}
+	if r.Var <= 1 {
+		switch r.Hid {
+		case 1:
+			x.StatIntervalInMs = 2000
+		case 2:
+			x.WarmUpPeriodSec = 7
+		case 3:
+			x.WarmUpColdFactor = 5
+		case 4:
+			x.LowMemUsageThreshold = 5
+		}
+	}
 	return x
 }
 
@@ -126,6 +146,9 @@ func BuildIsolation(r RS) *isolation.Rule {
 		x.Threshold, x.MetricType = 1, isolation.MetricType(1)
 	case 4:
 		x.Threshold, x.MetricType = 1, isolation.MetricType(-1)
+	}
+	if r.Var == 0 && r.Hid == 1 {
+		x.Threshold += 100
 	}
 	return x
 }
@@ -155,6 +178,20 @@ func BuildHotspot(r RS) *hotspot.Rule {
 	case 9:
 		x.Threshold, x.DurationInSec = 0, -3
 	}
+	if r.Var <= 1 {
+		switch r.Hid {
+		// only fields that matter to a QPS/Reject rule (the queueing time of a Reject rule is not compared by the
+		// manager and not used by the controller, so a stale value there is not an observable difference)
+		case 1:
+			if r.Var == 0 {
+				x.BurstCount = 3
+			}
+		case 2:
+			x.SpecificItems = map[interface{}]int64{"zz": 5}
+		case 3:
+			x.DurationInSec = 2
+		}
+	}
 	return x
 }
 
@@ -181,6 +218,17 @@ func BuildBreaker(r RS) *cb.Rule {
 	case 8:
 		x.MinRequestAmount, x.Strategy, x.Threshold = 0, cb.SlowRequestRatio, -0.1
 	}
+	if r.Var <= 1 {
+		switch r.Hid {
+		// only fields that matter to an ErrorCount breaker (MaxAllowedRtMs does not, and is not compared)
+		case 1:
+			x.MinRequestAmount++
+		case 2:
+			x.StatSlidingWindowBucketCount = 2
+		case 3:
+			x.ProbeNum = 2
+		}
+	}
 	return x
 }
 
@@ -198,6 +246,16 @@ func BuildSystem(r RS) *system.Rule {
 		x.TriggerCount, x.MetricType = 0, system.MetricType(99)
 	case 4:
 		x.MetricType, x.TriggerCount = system.CpuUsage, 1.5
+	}
+	if r.Var <= 1 {
+		switch r.Hid {
+		case 1:
+			x.Strategy = system.BBR
+		case 2:
+			if r.Var == 0 {
+				x.TriggerCount += 0.5
+			}
+		}
 	}
 	return x
 }
@@ -220,5 +278,72 @@ func BuildOutlier(r RS) *outlier.Rule {
 	case 5:
 		x.Rule = nil
 	}
+	if r.Var <= 1 {
+		switch r.Hid {
+		case 1:
+			x.MaxRecoveryAttempts = 4
+		case 2:
+			x.Rule.RetryTimeoutMs = 2000
+		case 3:
+			x.Rule.MinRequestAmount = 2
+		}
+	}
 	return x
+}
+
+// Token renders a rule as "<every field but the id> @<id>": what the checks compare reported and enforced rules
+// by (Sig strips the table index from the trailing id).
+func Token(rule interface{}) string {
+	if v := reflect.ValueOf(rule); !v.IsValid() || (v.Kind() == reflect.Ptr && v.IsNil()) {
+		return "<nil>"
+	}
+	switch x := rule.(type) {
+	case *flow.Rule:
+		c := *x
+		c.ID = ""
+		return fmt.Sprintf("%+v @%s", c, x.ID)
+	case *isolation.Rule:
+		c := *x
+		c.ID = ""
+		return fmt.Sprintf("%+v @%s", c, x.ID)
+	case *hotspot.Rule:
+		c := *x
+		c.ID = ""
+		return fmt.Sprintf("%+v @%s", c, x.ID)
+	case *cb.Rule:
+		c := *x
+		c.Id = ""
+		return fmt.Sprintf("%+v @%s", c, x.Id)
+	case *system.Rule:
+		c := *x
+		c.ID = ""
+		return fmt.Sprintf("%+v @%s", c, x.ID)
+	case *outlier.Rule:
+		if x.Rule == nil {
+			return fmt.Sprintf("%+v @nil", *x)
+		}
+		c := *x
+		in := *x.Rule
+		in.Id = ""
+		c.Rule = nil
+		return fmt.Sprintf("%+v %+v @%s", in, c, x.Rule.Id)
+	}
+	return fmt.Sprintf("%v", rule)
+}
+
+// Token of the rule built from the specification.
+func (r RS) Token() string {
+	switch r.M {
+	case Flow:
+		return Token(BuildFlow(r))
+	case Isolation:
+		return Token(BuildIsolation(r))
+	case Hotspot:
+		return Token(BuildHotspot(r))
+	case Breaker:
+		return Token(BuildBreaker(r))
+	case System:
+		return Token(BuildSystem(r))
+	}
+	return Token(BuildOutlier(r))
 }
